@@ -14,7 +14,7 @@ from . import formula as F
 from . import values
 from .values import enc
 
-WS = ['', ' ', '  ', '\t', '\n', '\r\n', ' \t ']
+WS = ['', ' ', '  ', '\t', '\n', '\r\n', ' \t ', '\u00a0', '\u3000', '\u2009', '\u202f', '\x85', '\x1f', '\u2028', '\x0c']
 
 
 def base_env():
@@ -138,6 +138,9 @@ def case_variants(rng, label):
 
 def rand_string(rng, q):
     pool = 'ab Z09_-+*/=<>&(),;:.#!?%^{}é漢語ñ\t\n\r\x0b\u2028\u00a0\u201c\u201d\u2018\u2019\u00ab`' + ("'" if q == '"' else '"')
+    if rng.random() < 0.06:       # text spelled like an error code, a logical, a number, a cell, a formula: still that text
+        return rng.choice(['#N/A', '#REF!', '#DIV/0!', '#VALUE!', '#NAME?', '#NUM!', '#NULL!', '#ERROR!', 'TRUE', 'FALSE', '12', '1e3', 'A1',
+                           '=1+1', 'SUM(1,2)', 'NULL', ' ', '-', '%'])
     n = rng.randint(0, 12)
     s = ''.join(rng.choice(pool) for _ in range(n))
     return s
